@@ -285,6 +285,7 @@ def inline_into(facts, path, is_new, stack=(), log=None):
         if len(t["args"]) != argc:
             bi += 1
             continue   # spread-argument ABI (closures): leave the call alone
+        f.setdefault("own_blocks", len(f["blocks"]))     # blocks written in this function itself (before any splicing)
         base = len(f["locals"])
         nb = len(f["blocks"])
         bmap = {j: nb + j for j in range(len(g["blocks"]))}
